@@ -51,6 +51,20 @@ def parseTok (t : String) (maxBody : Nat) : Option BOp :=
         pure (BOp.watch b1 b2 true)
       | _ => none
     | 'm' => ((parseNat r).filter (· < maxBody)).map BOp.memo
+    | 'y' =>
+      match r.splitOn "." with
+      | [a, b] => do
+        let b1 ← (parseNat a).filter (· < maxBody)
+        let b2 ← (parseNat b).filter (· < maxBody)
+        pure (BOp.watch b1 b2 false)
+      | _ => none
+    | 'Y' =>
+      match r.splitOn "." with
+      | [a, b] => do
+        let b1 ← (parseNat a).filter (· < maxBody)
+        let b2 ← (parseNat b).filter (· < maxBody)
+        pure (BOp.watch b1 b2 true)
+      | _ => none
     | 'o' => if rest.isEmpty then some BOp.newOwner else none
     | _ => none
 
